@@ -439,6 +439,13 @@ class CatalogWriter(AbstractContextManager, HandlesDataChunk):
 
         if self.cache_directory.exists():
             if overwrite:
+                if not (
+                    self.cache_directory.is_dir()
+                    and (self.cache_directory / PATCH_INFO_FILE).exists()
+                ):
+                    raise FileExistsError(
+                        f"not a catalog cache, refusing to overwrite: {cache_directory}"
+                    )
                 rmtree(self.cache_directory)
             else:
                 raise FileExistsError(f"cache directory exists: {cache_directory}")
